@@ -7,6 +7,7 @@ import (
 	"io"
 	"path/filepath"
 	"reflect"
+	"sort"
 	"strconv"
 	"strings"
 )
@@ -717,6 +718,7 @@ func (n *ExtendsNode) Render(w io.Writer, ctx *RenderContext) error {
 type IncludeNode struct {
 	template      Node
 	variables     map[string]Node
+	order         []string // keys of variables in source order (nil for a node built by hand)
 	ignoreMissing bool
 	only          bool
 	sandboxed     bool
@@ -846,8 +848,18 @@ func (n *IncludeNode) Render(w io.Writer, ctx *RenderContext) error {
 
 	// Pre-evaluate all variables before setting them
 	if len(n.variables) > 0 {
-		for name, valueNode := range n.variables {
-			value, err := ctx.EvaluateExpression(valueNode)
+		// In source order (sorted for a node built without one), never in map order:
+		// the values may call user functions, and the first failure is the one reported
+		names := n.order
+		if len(names) != len(n.variables) {
+			names = make([]string, 0, len(n.variables))
+			for name := range n.variables {
+				names = append(names, name)
+			}
+			sort.Strings(names)
+		}
+		for _, name := range names {
+			value, err := ctx.EvaluateExpression(n.variables[name])
 			if err != nil {
 				return err
 			}
